@@ -77,6 +77,61 @@ func main() {
 		r = w.d2h(A, 4096)
 		fmt.Println("after k2:", r[:12], "want", pat(12, 7)[:4], pat(8, 100)[4:], pat(12, 7)[8:])
 		fmt.Println(" line 2 :", r[64:70], "want", pat(70, 7)[64:])
+	case "ctx":
+		c2 := d.InitWithExistingPID(w.c)
+		S := d.AllocateMemory(w.c, 4096)
+		B := d.AllocateMemory(c2, 4096)
+		w.h2d(S, pat(4096, 50))
+		w2 := &world{s, d, c2}
+		w2.h2d(B, make([]byte, 4096))
+		w.d2d(B, S, 4096)
+		r := w2.d2h(B, 4096)
+		fmt.Println("B via ctx2:", r[:8], "want", pat(8, 50))
+		r = w.d2h(B, 4096)
+		fmt.Println("B via ctx1:", r[:8], "want", pat(8, 50))
+		r = w2.d2h(B, 4096)
+		fmt.Println("B via ctx2 again:", r[:8], "want", pat(8, 50))
+	case "free":
+		A := d.AllocateMemory(w.c, 4096)
+		B := d.AllocateMemory(w.c, 4096)
+		C := d.AllocateMemory(w.c, 4096)
+		S := d.AllocateMemory(w.c, 4096)
+		w.h2d(S, pat(4096, 50))
+		w.d2d(C, S, 4096)
+		d.FreeMemory(w.c, A)
+		d.FreeMemory(w.c, B)
+		func() {
+			defer func() { fmt.Println("recovered:", recover()) }()
+			r := w.d2h(C, 4096)
+			fmt.Println("C:", r[:8], "want", pat(8, 50))
+		}()
+	case "free1":
+		A := d.AllocateMemory(w.c, 4096)
+		C := d.AllocateMemory(w.c, 4096)
+		S := d.AllocateMemory(w.c, 4096)
+		w.h2d(S, pat(4096, 50))
+		w.d2d(C, S, 4096)
+		d.FreeMemory(w.c, A)
+		d.FreeMemory(w.c, S)
+		func() {
+			defer func() { fmt.Println("recovered:", recover()) }()
+			r := w.d2h(C, 4096)
+			fmt.Println("C:", r[:8], "want", pat(8, 50))
+		}()
+	case "free2":
+		A := d.AllocateMemory(w.c, 4096)
+		C := d.AllocateMemory(w.c, 4096)
+		S := d.AllocateMemory(w.c, 4096)
+		w.h2d(S, pat(4096, 50))
+		w.d2d(C, S, 4096)
+		T := d.AllocateMemory(w.c, 4096)
+		d.FreeMemory(w.c, A)
+		d.FreeMemory(w.c, T)
+		func() {
+			defer func() { fmt.Println("recovered:", recover()) }()
+			r := w.d2h(C, 4096)
+			fmt.Println("C:", r[:8], "want", pat(8, 50))
+		}()
 	case "hang":
 		d.SelectGPU(w.c, 2)
 		X := d.AllocateMemory(w.c, 1<<20)
